@@ -19,12 +19,14 @@ def std_vectors(prefix):
     out = []
     for line in open(os.path.join(VEC, 'standards.txt')):
         if line.startswith(prefix):
-            t = line.split()
+            import re as _re
+            name, _, rest = line.strip().partition(' ')
             d = {}
-            for kv in t[1:]:
+            parts = _re.split(r' (?=[A-Za-z0-9_]+=)', rest)
+            for kv in parts:
                 k, _, v = kv.partition('=')
                 d[k] = v
-            out.append((t[0], d))
+            out.append((name, d))
     return out
 
 
